@@ -1,2 +1,511 @@
-/- C15 (statements are being added) -/
+/-
+  C15 — schema equality is structural; schema == value means the value validates.
+-/
 import D42.Model.Eq
+import D42.Props.C02
+
+namespace D42
+
+mutual
+/-- no NaN as a fixed value or bound of a float schema (finding K6: nan != nan) -/
+def NoNaNS : Schema → Prop
+  | .scalar (.float v mn mx _ _ _) => v ≠ some .nan ∧ mn ≠ some .nan ∧ mx ≠ some .nan
+  | .scalar _ => True
+  | .listU _ => True
+  | .listT t _ => NoNaNS t
+  | .listE _ es _ _ => NoNaNSL es
+  | .dict none _ => True
+  | .dict (some fs) _ => NoNaNSF fs
+  | .any none => True
+  | .any (some ts) => NoNaNSL ts
+  | .alias _ t => NoNaNS t
+  | .custom t => NoNaNS t
+def NoNaNSL : List Schema → Prop
+  | [] => True
+  | s :: ss => NoNaNS s ∧ NoNaNSL ss
+def NoNaNSF : List (PyKey × Bool × Schema) → Prop
+  | [] => True
+  | (_, _, s) :: fs => NoNaNS s ∧ NoNaNSF fs
+end
+
+mutual
+/-- dict schemas have distinct keys at every level (true of every schema Python can build) -/
+def KeysNodup : Schema → Prop
+  | .scalar _ => True
+  | .listU _ => True
+  | .listT t _ => KeysNodup t
+  | .listE _ es _ _ => KeysNodupL es
+  | .dict none _ => True
+  | .dict (some fs) _ => (fs.map (·.1)).Nodup ∧ KeysNodupF fs
+  | .any none => True
+  | .any (some ts) => KeysNodupL ts
+  | .alias _ t => KeysNodup t
+  | .custom t => KeysNodup t
+def KeysNodupL : List Schema → Prop
+  | [] => True
+  | s :: ss => KeysNodup s ∧ KeysNodupL ss
+def KeysNodupF : List (PyKey × Bool × Schema) → Prop
+  | [] => True
+  | (_, _, s) :: fs => KeysNodup s ∧ KeysNodupF fs
+end
+
+/-! ### helper lemmas and the theorems -/
+
+
+theorem optEq_refl {α} (eq : α → α → Bool) (h : ∀ x, eq x x = true) (a : Option α) : optEq eq a a = true := by
+  cases a <;> simp [optEq, h]
+
+theorem optEq_symm {α} (eq : α → α → Bool) (h : ∀ x y, eq x y = eq y x) (a b : Option α) :
+    optEq eq a b = optEq eq b a := by
+  cases a <;> cases b <;> simp only [optEq]; exact h _ _
+
+theorem optEq_beq_iff {α} [BEq α] [LawfulBEq α] (a b : Option α) : optEq (· == ·) a b = true ↔ a = b := by
+  cases a <;> cases b <;> simp [optEq]
+
+theorem optEqB_symm {α} [BEq α] [LawfulBEq α] (a b : Option α) :
+    optEq (· == ·) a b = optEq (· == ·) b a :=
+  optEq_symm _ (fun _ _ => BEq.comm) a b
+
+theorem optEqB_refl {α} [BEq α] [LawfulBEq α] (a : Option α) : optEq (· == ·) a a = true :=
+  optEq_refl _ (fun _ => by simp) a
+
+theorem PyFloat.eq_symm (a b : PyFloat) : PyFloat.eq a b = PyFloat.eq b a := by
+  cases a <;> cases b <;> simp [PyFloat.eq, eq_comm]
+
+theorem PyFloat.eq_iff (a b : PyFloat) : PyFloat.eq a b = true ↔ a = b ∧ a ≠ .nan := by
+  cases a <;> cases b <;> simp [PyFloat.eq]
+
+theorem lenPEq_symm (L M : LenP) : lenPEq L M = lenPEq M L := by
+  unfold lenPEq
+  rw [optEqB_symm L.len, optEqB_symm L.minLen, optEqB_symm L.maxLen]
+
+theorem lenPEq_refl (L : LenP) : lenPEq L L = true := by
+  simp [lenPEq, optEqB_refl]
+
+theorem lenPEq_iff (L M : LenP) : lenPEq L M = true ↔ L = M := by
+  rcases L with ⟨a, b, c⟩; rcases M with ⟨a', b', c'⟩
+  simp [lenPEq, optEq_beq_iff, and_assoc]
+
+theorem and_congr2 {a b c d : Bool} (h1 : a = c) (h2 : b = d) : (a && b) = (c && d) := by rw [h1, h2]
+
+theorem scalarEq_symm (a b : ScalarS) : scalarEq a b = scalarEq b a := by
+  cases a <;> cases b <;> simp only [scalarEq] <;>
+    (repeat' (first
+      | exact optEqB_symm _ _
+      | exact optEq_symm _ PyFloat.eq_symm _ _
+      | exact lenPEq_symm _ _
+      | exact optEq_symm _ (fun _ _ => BEq.comm) _ _
+      | exact optEq_symm _ (fun x y => by rw [BEq.comm (a := x.1), BEq.comm (a := x.2)]) _ _
+      | refine and_congr2 ?_ ?_))
+
+theorem optEq_pf_iff (a b : Option PyFloat) : optEq PyFloat.eq a b = true → a = b := by
+  cases a <;> cases b <;> simp [optEq, PyFloat.eq_iff]
+  intro h _; exact h
+
+/-- K6 witness: a NaN fixed value makes a schema unequal to itself -/
+theorem pyEq_nan_counterexample (env : Env) :
+    pyEq env (.scalar (.float (some .nan) none none none none none)) (.scalar (.float (some .nan) none none none none none)) = false := by
+  simp [pyEq, scalarEq, optEq, PyFloat.eq]
+
+/-- **schema == value** is true exactly when the value validates -/
+theorem pyEqValue_iff (env : Env) (s : Schema) (v : PyVal) : pyEqValue env s v = true ↔ Conforms env s v := by
+  unfold pyEqValue
+  rw [List.isEmpty_iff]
+  exact validate_iff_conforms env s v
+
+/-- scalar equality is equality of the declared props (decimal companions aside), so equal scalars have
+    the same meaning -/
+theorem scalarEq_same_meaning (env : Env) (a b : ScalarS) (h : scalarEq a b = true) (v : PyVal) :
+    ConformsScalar env a v ↔ ConformsScalar env b v := by
+  cases a <;> cases b <;> simp only [scalarEq, Bool.and_eq_true, optEq_beq_iff, lenPEq_iff, Bool.false_eq_true] at h
+  case none.none => exact Iff.rfl
+  case bool.bool => subst h; exact Iff.rfl
+  case int.int => obtain ⟨⟨rfl, rfl⟩, rfl⟩ := h; exact Iff.rfl
+  case float.float =>
+    obtain ⟨⟨⟨h1, h2⟩, h3⟩, rfl⟩ := h
+    have := optEq_pf_iff _ _ h1; have := optEq_pf_iff _ _ h2; have := optEq_pf_iff _ _ h3
+    subst_vars
+    simp only [ConformsScalar]
+  case str.str a1 aL a3 a4 a5 b1 bL b3 b4 b5 =>
+    obtain ⟨⟨⟨⟨rfl, rfl⟩, rfl⟩, rfl⟩, h5⟩ := h
+    simp only [ConformsScalar]
+    cases a5 <;> cases b5 <;> simp [optEq] at h5 ⊢
+    simp [h5]
+  case bytes.bytes => subst h; exact Iff.rfl
+  case uuid4.uuid4 a b =>
+    simp only [ConformsScalar]
+    cases a <;> cases b <;> simp [optEq] at h ⊢
+    simp [h]
+  case datetime.datetime => subst h; exact Iff.rfl
+  case date.date a b =>
+    have : a = b := by
+      cases a <;> cases b <;> simp [optEq] at h ⊢
+      exact Prod.ext h.1 h.2
+    subst this; exact Iff.rfl
+
+/-- changing a single declared int bound makes schemas unequal -/
+theorem pyEq_discriminates_int (env : Env) (v mn mx v' mn' mx' : Option Int)
+    (h : pyEq env (.scalar (.int v mn mx)) (.scalar (.int v' mn' mx')) = true) : v = v' ∧ mn = mn' ∧ mx = mx' := by
+  simpa [pyEq, scalarEq, optEq_beq_iff, and_assoc] using h
+
+theorem eqFields_flags (env : Env) (fb : List (PyKey × Bool × Schema)) :
+    ∀ (fa : List (PyKey × Bool × Schema)), eqFields env fa fb = true →
+      ∀ f ∈ fa, ∃ g ∈ fb, g.1 = f.1 ∧ g.2.1 = f.2.1 ∧ pyEq env f.2.2 g.2.2 = true
+  | [], _, f, hf => by simp at hf
+  | (k, o, s) :: r, h, f, hf => by
+    simp only [eqFields, Bool.and_eq_true] at h
+    rcases List.mem_cons.1 hf with rfl | hf'
+    · cases hfind : fb.find? (fun f => f.1 == k) with
+      | none => simp [hfind] at h
+      | some g =>
+        simp only [hfind, Bool.and_eq_true, beq_iff_eq] at h
+        refine ⟨g, List.mem_of_find?_eq_some hfind, ?_, h.1.1.symm, h.1.2⟩
+        simpa using List.find?_some hfind
+    · exact eqFields_flags env fb r h.2 f hf'
+
+/-- changing optionality, a key, or relaxedness of a dict makes schemas unequal -/
+theorem pyEq_dict_flags (env : Env) (fa fb : List (PyKey × Bool × Schema)) (ea eb : Option Nat)
+    (h : pyEq env (.dict (some fa) ea) (.dict (some fb) eb) = true) :
+    ea.isSome = eb.isSome ∧ fa.length = fb.length ∧
+      ∀ f ∈ fa, ∃ g ∈ fb, g.1 = f.1 ∧ g.2.1 = f.2.1 := by
+  simp only [pyEq, Bool.and_eq_true, beq_iff_eq] at h
+  refine ⟨h.1.1, h.1.2, fun f hf => ?_⟩
+  obtain ⟨g, hg, h1, h2, _⟩ := eqFields_flags env fb fa h.2 f hf
+  exact ⟨g, hg, h1, h2⟩
+
+/-- K8 witness: `schema.list([schema.any, ...]) == schema.list([schema.any, schema.any])` although they
+    accept different lists -/
+theorem pyEq_universal_counterexample (env : Env) :
+    let a := Schema.listE false [.any none] true {}
+    let b := Schema.listE false [.any none, .any none] false {}
+    pyEq env a b = true ∧ Conforms env a (.list [.int 1]) ∧ ¬ Conforms env b (.list [.int 1]) := by
+  refine ⟨?_, ?_, ?_⟩
+  · simp [pyEq, elemList, eqElems, validateP, lenPEq, optEq]
+  · simp [Conforms, LenOK, PrefixC]
+  · simp [Conforms]
+
+/-! ### element lists as Python compares them -/
+
+def eqOpt (env : Env) : Option Schema → Option Schema → Bool
+  | none, none => true
+  | some a, some b => pyEq env a b
+  | some a, none => (validateP env false a .ellipsis []).isEmpty
+  | none, some b => (validateP env false b .ellipsis []).isEmpty
+
+def eqOL (env : Env) : List (Option Schema) → List (Option Schema) → Bool
+  | [], [] => true
+  | x :: xs, y :: ys => eqOpt env x y && eqOL env xs ys
+  | _, _ => false
+
+theorem eqElems_eq (env : Env) : ∀ (es : List Schema) (tr : Bool) (ys : List (Option Schema)),
+    eqElems env es tr ys = eqOL env (es.map some ++ (if tr then [none] else [])) ys
+  | [], true, [] => by simp [eqElems, eqOL]
+  | [], true, [y] => by cases y <;> simp [eqElems, eqOL, eqOpt]
+  | [], true, y :: z :: r => by simp [eqElems, eqOL]
+  | [], false, [] => by simp [eqElems, eqOL]
+  | [], false, _ :: _ => by simp [eqElems, eqOL]
+  | _ :: _, _, [] => by simp [eqElems, eqOL]
+  | e :: es, tr, y :: ys => by
+    cases y <;> simp [eqElems, eqOL, eqOpt, eqElems_eq env es tr ys]
+
+theorem pyEq_listE (env : Env) (lead : Bool) (es : List Schema) (trail : Bool) (L : LenP)
+    (lead2 : Bool) (es2 : List Schema) (trail2 : Bool) (M : LenP) :
+    pyEq env (.listE lead es trail L) (.listE lead2 es2 trail2 M) =
+      (eqOL env (elemList lead es trail) (elemList lead2 es2 trail2) && lenPEq L M) := by
+  simp only [pyEq]
+  cases lead
+  · simp [elemList, eqElems_eq]
+  · simp only [if_true]
+    have : elemList true es trail = none :: (es.map some ++ (if trail then [none] else [])) := by
+      simp [elemList]
+    rw [this]
+    cases elemList lead2 es2 trail2 with
+    | nil => simp [eqOL]
+    | cons y ys => cases y <;> simp [eqOL, eqOpt, eqElems_eq]
+
+theorem mem_elemList (lead : Bool) (es : List Schema) (trail : Bool) (s : Schema) :
+    some s ∈ elemList lead es trail ↔ s ∈ es := by
+  cases lead <;> cases trail <;> simp [elemList]
+
+theorem eqOL_refl (env : Env) : ∀ (A : List (Option Schema)),
+    (∀ s, some s ∈ A → pyEq env s s = true) → eqOL env A A = true
+  | [], _ => by simp [eqOL]
+  | x :: xs, h => by
+    simp only [eqOL, Bool.and_eq_true]
+    refine ⟨?_, eqOL_refl env xs (fun s hs => h s (List.mem_cons_of_mem _ hs))⟩
+    cases x with
+    | none => simp [eqOpt]
+    | some s => simpa [eqOpt] using h s (by simp)
+
+theorem eqOL_symm (env : Env) : ∀ (A B : List (Option Schema)),
+    (∀ s, some s ∈ A → ∀ t, some t ∈ B → pyEq env s t = pyEq env t s) → eqOL env A B = eqOL env B A
+  | [], [], _ => rfl
+  | [], _ :: _, _ => by simp [eqOL]
+  | _ :: _, [], _ => by simp [eqOL]
+  | x :: xs, y :: ys, h => by
+    simp only [eqOL]
+    refine and_congr2 ?_ (eqOL_symm env xs ys (fun s hs t ht =>
+      h s (List.mem_cons_of_mem _ hs) t (List.mem_cons_of_mem _ ht)))
+    cases x <;> cases y <;> simp only [eqOpt]
+    exact h _ (by simp) _ (by simp)
+
+theorem eqList_refl (env : Env) : ∀ (xs : List Schema), (∀ s ∈ xs, pyEq env s s = true) → eqList env xs xs = true
+  | [], _ => by simp [eqList]
+  | x :: xs, h => by
+    simp only [eqList, Bool.and_eq_true]
+    exact ⟨h x (by simp), eqList_refl env xs (fun s hs => h s (List.mem_cons_of_mem _ hs))⟩
+
+theorem eqList_symm (env : Env) : ∀ (xs ys : List Schema),
+    (∀ s ∈ xs, ∀ t ∈ ys, pyEq env s t = pyEq env t s) → eqList env xs ys = eqList env ys xs
+  | [], [], _ => rfl
+  | [], _ :: _, _ => by simp [eqList]
+  | _ :: _, [], _ => by simp [eqList]
+  | x :: xs, y :: ys, h => by
+    simp only [eqList]
+    exact and_congr2 (h x (by simp) y (by simp)) (eqList_symm env xs ys (fun s hs t ht =>
+      h s (List.mem_cons_of_mem _ hs) t (List.mem_cons_of_mem _ ht)))
+
+/-! ### dict fields -/
+
+theorem find_key {β} : ∀ (fs : List (PyKey × β)), (fs.map (·.1)).Nodup → ∀ f ∈ fs,
+    fs.find? (fun g => g.1 == f.1) = some f
+  | [], _, f, hf => by simp at hf
+  | g :: r, hnd, f, hf => by
+    simp only [List.map_cons, List.nodup_cons] at hnd
+    rcases List.mem_cons.1 hf with rfl | hf'
+    · simp
+    · have hne : ¬ g.1 = f.1 := fun he => hnd.1 (he ▸ List.mem_map_of_mem hf')
+      have hb' : (g.1 == f.1) = false := by simp [hne]
+      rw [List.find?_cons, hb']
+      exact find_key r hnd.2 f hf'
+
+theorem eqFields_iff (env : Env) (b : List (PyKey × Bool × Schema)) (hb : (b.map (·.1)).Nodup) :
+    ∀ (a : List (PyKey × Bool × Schema)), eqFields env a b = true ↔
+      ∀ f ∈ a, ∃ g ∈ b, g.1 = f.1 ∧ g.2.1 = f.2.1 ∧ pyEq env f.2.2 g.2.2 = true := by
+  intro a
+  refine ⟨eqFields_flags env b a, ?_⟩
+  induction a with
+  | nil => intro _; simp [eqFields]
+  | cons f r ih =>
+    intro h
+    obtain ⟨k, o, s⟩ := f
+    simp only [eqFields, Bool.and_eq_true]
+    refine ⟨?_, ih (fun f hf => h f (List.mem_cons_of_mem _ hf))⟩
+    obtain ⟨g, hg, h1, h2, h3⟩ := h (k, o, s) (by simp)
+    have := find_key b hb g hg
+    simp only at h1 h2 h3
+    rw [h1] at this
+    simp [this, h2, h3]
+
+theorem subset_of_nodup_of_length_le {α} [DecidableEq α] : ∀ (l1 l2 : List α),
+    l1.Nodup → l1 ⊆ l2 → l2.length ≤ l1.length → l2 ⊆ l1
+  | [], l2, _, _, hl => by
+    have : l2 = [] := List.length_eq_zero_iff.1 (Nat.le_zero.1 hl)
+    simp [this]
+  | x :: t, l2, hnd, hsub, hl => by
+    simp only [List.nodup_cons] at hnd
+    have hx : x ∈ l2 := hsub (by simp)
+    have hlen : (l2.erase x).length ≤ t.length := by
+      rw [List.length_erase_of_mem hx]; simp at hl; omega
+    have hsub' : t ⊆ l2.erase x := by
+      intro y hy
+      have hne : y ≠ x := fun he => hnd.1 (he ▸ hy)
+      exact (List.mem_erase_of_ne hne).2 (hsub (List.mem_cons_of_mem _ hy))
+    have ih := subset_of_nodup_of_length_le t (l2.erase x) hnd.2 hsub' hlen
+    intro y hy
+    by_cases he : y = x
+    · simp [he]
+    · exact List.mem_cons_of_mem _ (ih ((List.mem_erase_of_ne he).2 hy))
+
+theorem eqFields_swap (env : Env) (a b : List (PyKey × Bool × Schema))
+    (ha : (a.map (·.1)).Nodup) (hb : (b.map (·.1)).Nodup) (hlen : a.length = b.length)
+    (hs : ∀ f ∈ a, ∀ g ∈ b, pyEq env f.2.2 g.2.2 = pyEq env g.2.2 f.2.2)
+    (h : eqFields env a b = true) : eqFields env b a = true := by
+  rw [eqFields_iff env b hb] at h
+  rw [eqFields_iff env a ha]
+  have hsub : a.map (·.1) ⊆ b.map (·.1) := by
+    intro k hk
+    obtain ⟨f, hf, rfl⟩ := List.mem_map.1 hk
+    obtain ⟨g, hg, h1, _⟩ := h f hf
+    exact h1 ▸ List.mem_map_of_mem hg
+  have hsub' := subset_of_nodup_of_length_le _ _ ha hsub (by simp [hlen])
+  intro g hg
+  obtain ⟨f, hf, hfk⟩ := List.mem_map.1 (hsub' (List.mem_map_of_mem (f := (·.1)) hg))
+  obtain ⟨g', hg', h1, h2, h3⟩ := h f hf
+  have e1 := find_key b hb g hg
+  have e2 := find_key b hb g' hg'
+  rw [h1, hfk, e1] at e2
+  cases Option.some.inj e2
+  exact ⟨f, hf, hfk, h2.symm, by rw [← hs f hf g hg]; exact h3⟩
+
+theorem eqFields_symm (env : Env) (a b : List (PyKey × Bool × Schema))
+    (ha : (a.map (·.1)).Nodup) (hb : (b.map (·.1)).Nodup) (hlen : a.length = b.length)
+    (hs : ∀ f ∈ a, ∀ g ∈ b, pyEq env f.2.2 g.2.2 = pyEq env g.2.2 f.2.2) :
+    eqFields env a b = eqFields env b a := by
+  rw [Bool.eq_iff_iff]
+  exact ⟨eqFields_swap env a b ha hb hlen hs,
+    eqFields_swap env b a hb ha hlen.symm (fun g hg f hf => (hs f hf g hg).symm)⟩
+
+theorem optEq_pf_refl (a : Option PyFloat) (h : a ≠ some .nan) : optEq PyFloat.eq a a = true := by
+  cases a with
+  | none => simp [optEq]
+  | some f => cases f <;> simp [optEq, PyFloat.eq] at h ⊢
+
+theorem scalarEq_refl (k : ScalarS) (h : NoNaNS (.scalar k)) : scalarEq k k = true := by
+  cases k <;> simp only [scalarEq, Bool.and_eq_true, optEqB_refl, lenPEq_refl, and_self, true_and]
+  case float v mn mx pr d1 d2 =>
+    simp only [NoNaNS] at h
+    exact ⟨⟨⟨optEq_pf_refl _ h.1, optEq_pf_refl _ h.2.1⟩, optEq_pf_refl _ h.2.2⟩, trivial⟩
+  case str => exact optEq_refl _ (fun _ => by simp) _
+  case uuid4 => exact optEq_refl _ (fun _ => by simp) _
+  case date => exact optEq_refl _ (fun _ => by simp) _
+
+mutual
+theorem pyEq_refl' (env : Env) : ∀ (s : Schema), NoNaNS s → KeysNodup s → pyEq env s s = true
+  | .scalar k, hn, _ => by simp only [pyEq]; exact scalarEq_refl k hn
+  | .listU L, _, _ => by simp only [pyEq]; exact lenPEq_refl L
+  | .listT t L, hn, hk => by
+    simp only [NoNaNS] at hn; simp only [KeysNodup] at hk
+    simp only [pyEq, Bool.and_eq_true]; exact ⟨pyEq_refl' env t hn hk, lenPEq_refl L⟩
+  | .listE lead es trail L, hn, hk => by
+    simp only [NoNaNS] at hn; simp only [KeysNodup] at hk
+    rw [pyEq_listE, Bool.and_eq_true]
+    refine ⟨eqOL_refl env _ (fun s hs => ?_), lenPEq_refl L⟩
+    exact pyEq_reflL env es hn hk s ((mem_elemList _ _ _ _).1 hs)
+  | .dict none _, _, _ => by simp [pyEq]
+  | .dict (some fs) e, hn, hk => by
+    simp only [NoNaNS] at hn; simp only [KeysNodup] at hk
+    simp only [pyEq, Bool.and_eq_true, beq_self_eq_true, true_and]
+    rw [eqFields_iff env fs hk.1]
+    exact fun f hf => ⟨f, hf, rfl, rfl, pyEq_reflF env fs hn hk.2 f hf⟩
+  | .any none, _, _ => by simp [pyEq]
+  | .any (some ts), hn, hk => by
+    simp only [NoNaNS] at hn; simp only [KeysNodup] at hk
+    simp only [pyEq]
+    exact eqList_refl env ts (pyEq_reflL env ts hn hk)
+  | .alias n t, hn, hk => by
+    simp only [NoNaNS] at hn; simp only [KeysNodup] at hk
+    simp only [pyEq, Bool.and_eq_true]; exact ⟨optEqB_refl n, pyEq_refl' env t hn hk⟩
+  | .custom t, hn, hk => by
+    simp only [NoNaNS] at hn; simp only [KeysNodup] at hk
+    simp only [pyEq]; exact pyEq_refl' env t hn hk
+theorem pyEq_reflL (env : Env) : ∀ (es : List Schema), NoNaNSL es → KeysNodupL es →
+    ∀ s ∈ es, pyEq env s s = true
+  | [], _, _, s, hs => by simp at hs
+  | e :: es, hn, hk, s, hs => by
+    simp only [NoNaNSL] at hn; simp only [KeysNodupL] at hk
+    rcases List.mem_cons.1 hs with h | hs'
+    · rw [h]; exact pyEq_refl' env e hn.1 hk.1
+    · exact pyEq_reflL env es hn.2 hk.2 s hs'
+theorem pyEq_reflF (env : Env) : ∀ (fs : List (PyKey × Bool × Schema)), NoNaNSF fs → KeysNodupF fs →
+    ∀ f ∈ fs, pyEq env f.2.2 f.2.2 = true
+  | [], _, _, f, hf => by simp at hf
+  | (k, o, e) :: fs, hn, hk, f, hf => by
+    simp only [NoNaNSF] at hn; simp only [KeysNodupF] at hk
+    rcases List.mem_cons.1 hf with h | hf'
+    · rw [h]; exact pyEq_refl' env e hn.1 hk.1
+    · exact pyEq_reflF env fs hn.2 hk.2 f hf'
+end
+
+theorem KeysNodupL_mem : ∀ (es : List Schema), KeysNodupL es → ∀ s ∈ es, KeysNodup s
+  | [], _, s, hs => by simp at hs
+  | e :: es, hk, s, hs => by
+    simp only [KeysNodupL] at hk
+    rcases List.mem_cons.1 hs with h | hs'
+    · rw [h]; exact hk.1
+    · exact KeysNodupL_mem es hk.2 s hs'
+
+theorem KeysNodupF_mem : ∀ (fs : List (PyKey × Bool × Schema)), KeysNodupF fs → ∀ f ∈ fs, KeysNodup f.2.2
+  | [], _, f, hf => by simp at hf
+  | (k, o, e) :: fs, hk, f, hf => by
+    simp only [KeysNodupF] at hk
+    rcases List.mem_cons.1 hf with h | hf'
+    · rw [h]; exact hk.1
+    · exact KeysNodupF_mem fs hk.2 f hf'
+
+theorem beq_comm_bool (a b : Bool) : (a == b) = (b == a) := by cases a <;> cases b <;> rfl
+
+mutual
+theorem pyEq_symm' (env : Env) : ∀ (a b : Schema), KeysNodup a → KeysNodup b → pyEq env a b = pyEq env b a
+  | .scalar k, b, _, _ => by
+    cases b <;> simp only [pyEq]
+    exact scalarEq_symm _ _
+  | .listU L, b, _, _ => by
+    cases b <;> simp only [pyEq]
+    · exact lenPEq_symm _ _
+    · rw [lenPEq_symm]
+  | .listT t L, b, ha, hb => by
+    cases b <;> simp only [pyEq]
+    · rw [lenPEq_symm]
+    · simp only [KeysNodup] at ha hb
+      rw [lenPEq_symm, pyEq_symm' env t _ ha hb]
+  | .listE lead es trail L, b, ha, hb => by
+    cases b <;> try (simp only [pyEq]; done)
+    case listE lead2 es2 trail2 M =>
+      simp only [KeysNodup] at ha hb
+      rw [pyEq_listE, pyEq_listE, lenPEq_symm]
+      refine and_congr2 (eqOL_symm env _ _ (fun s hs t ht => ?_)) rfl
+      exact pyEq_symmL env es ha s ((mem_elemList _ _ _ _).1 hs) t
+        (KeysNodupL_mem es2 hb t ((mem_elemList _ _ _ _).1 ht))
+  | .dict fa ea, b, ha, hb => by
+    cases b <;> try (simp only [pyEq]; done)
+    case dict fb eb =>
+      cases fa <;> cases fb <;> simp only [pyEq]
+      case some.some fa fb =>
+        simp only [KeysNodup] at ha hb
+        by_cases hlen : fa.length = fb.length
+        · rw [eqFields_symm env fa fb ha.1 hb.1 hlen
+            (fun f hf g hg => pyEq_symmF env fa ha.2 f hf g.2.2 (KeysNodupF_mem fb hb.2 g hg)),
+            beq_comm_bool, hlen]
+        · have h1 : (fa.length == fb.length) = false := by simp [hlen]
+          have h2 : (fb.length == fa.length) = false := by simp [Ne.symm hlen]
+          simp [h1, h2]
+  | .any x, b, ha, hb => by
+    cases b <;> try (simp only [pyEq]; done)
+    case any y =>
+      cases x <;> cases y <;> simp only [pyEq]
+      case some.some xs ys =>
+        simp only [KeysNodup] at ha hb
+        exact eqList_symm env xs ys (fun s hs t ht => pyEq_symmL env xs ha s hs t (KeysNodupL_mem ys hb t ht))
+  | .alias n t, b, ha, hb => by
+    cases b <;> try (simp only [pyEq]; done)
+    case alias m u =>
+      simp only [KeysNodup] at ha hb
+      simp only [pyEq]
+      rw [optEqB_symm, pyEq_symm' env t u ha hb]
+  | .custom t, b, ha, hb => by
+    cases b <;> try (simp only [pyEq]; done)
+    case custom u =>
+      simp only [KeysNodup] at ha hb
+      simp only [pyEq]
+      exact pyEq_symm' env t u ha hb
+theorem pyEq_symmL (env : Env) : ∀ (es : List Schema), KeysNodupL es →
+    ∀ s ∈ es, ∀ t, KeysNodup t → pyEq env s t = pyEq env t s
+  | [], _, s, hs, _, _ => by simp at hs
+  | e :: es, hk, s, hs, t, ht => by
+    simp only [KeysNodupL] at hk
+    rcases List.mem_cons.1 hs with h | hs'
+    · rw [h]; exact pyEq_symm' env e t hk.1 ht
+    · exact pyEq_symmL env es hk.2 s hs' t ht
+theorem pyEq_symmF (env : Env) : ∀ (fs : List (PyKey × Bool × Schema)), KeysNodupF fs →
+    ∀ f ∈ fs, ∀ t, KeysNodup t → pyEq env f.2.2 t = pyEq env t f.2.2
+  | [], _, f, hf, _, _ => by simp at hf
+  | (k, o, e) :: fs, hk, f, hf, t, ht => by
+    simp only [KeysNodupF] at hk
+    rcases List.mem_cons.1 hf with h | hf'
+    · rw [h]; exact pyEq_symm' env e t hk.1 ht
+    · exact pyEq_symmF env fs hk.2 f hf' t ht
+end
+
+/-! ### the main theorems -/
+
+/-- **reflexive** (and hence: independent builds of the same declaration are equal) -/
+theorem pyEq_refl (env : Env) (s : Schema) (hn : NoNaNS s) (hk : KeysNodup s) : pyEq env s s = true :=
+  pyEq_refl' env s hn hk
+
+/-- **symmetric** -/
+theorem pyEq_symm (env : Env) (a b : Schema) (ha : KeysNodup a) (hb : KeysNodup b) :
+    pyEq env a b = pyEq env b a :=
+  pyEq_symm' env a b ha hb
+
+end D42
